@@ -447,7 +447,18 @@ fn build_matcher_tree(
     // multiple-character flags don't start with a double dash
     let mut i = arg_index;
     let mut invert_next_matcher = false;
+    // Set by '!' and '-a', which must be followed by an operand (not by another
+    // binary operator, a closing parenthesis or the end of the expression).
+    let mut operand_required_after: Option<&str> = None;
     while i < args.len() {
+        if let Some(operator) = operand_required_after {
+            if matches!(args[i], "-and" | "-a" | "-or" | "-o" | "," | ")") {
+                return Err(From::from(format!(
+                    "expected an expression between {} and {}",
+                    operator, args[i]
+                )));
+            }
+        }
         let possible_submatcher = match args[i] {
             "-print" => Some(Printer::new(PrintDelimiter::Newline, None).into_box()),
             "-print0" => Some(Printer::new(PrintDelimiter::Null, None).into_box()),
@@ -780,6 +791,7 @@ fn build_matcher_tree(
                     )));
                 }
                 invert_next_matcher = !invert_next_matcher;
+                operand_required_after = Some(args[i]);
                 None
             }
             "-and" | "-a" => {
@@ -790,6 +802,7 @@ fn build_matcher_tree(
                     )));
                 }
                 top_level_matcher.check_new_and_condition()?;
+                operand_required_after = Some(args[i]);
                 None
             }
             "-or" | "-o" => {
@@ -947,6 +960,7 @@ fn build_matcher_tree(
             break;
         }
         if let Some(submatcher) = possible_submatcher {
+            operand_required_after = None;
             if invert_next_matcher {
                 top_level_matcher.new_and_condition(NotMatcher::new(submatcher));
                 invert_next_matcher = false;
